@@ -569,6 +569,11 @@ func checkPositions(src string, cmds []ast.Command, comments []*ast.Comment) ([]
 			if got := pc.x.at(c.Hash, 1+len([]rune(c.Text))); got != "#"+c.Text {
 				pc.fail("Comment at %d:%d reads %q, want %q", c.Hash.Line(), c.Hash.Col(), got, "#"+c.Text)
 			}
+			// End() designates the last character of the comment (the repository's tests pin Hash + length of Text): in characters, on the same line
+			pc.fields["Comment.End"]++
+			if e := c.End(); e.Line() != c.Hash.Line() || e.Col() != c.Hash.Col()+len([]rune(c.Text)) {
+				pc.fail("Comment.End() = %d:%d, want %d:%d (the last character of %q)", e.Line(), e.Col(), c.Hash.Line(), c.Hash.Col()+len([]rune(c.Text)), "#"+c.Text)
+			}
 		}
 	}
 	return pc.bad, pc.fields
@@ -649,7 +654,7 @@ func init() {
 		Level:       "exploration",
 		Technique:   "runtime monitoring: intrinsic (source, AST) invariant — the source text found at every recorded position is compared with the token the field documents; Pos()/End() containment and ordering checked on every node of every accepted parse",
 		Rule:        "a case is one source text: generated programs (multi-line, here-documents, nested substitutions, multi-byte names and literals, tabs, comments, continuations) under 4 layouts, plus every accepted string of <=3 tokens of the C01 token alphabet (blank-joined and glued); distinct_nontrivial = distinct accepted sources whose every position field was checked. counters field/<Type.Field> give the number of position fields compared per kind.",
-		Assumptions: []string{"documented exclusions: text inside a line continuation, Comment.End, ordering/containment of nodes that carry here-documents (their End() lies after the rest of the line)"},
+		Assumptions: []string{"documented exclusions: text inside a line continuation, ordering/containment of nodes that carry here-documents (their End() lies after the rest of the line)"},
 		Gen:         c04Gen,
 		Replay:      func(c *core.Ctx, raw []byte) { core.ReplayOne(c, raw, c04Exec) },
 		Finish: func(m *core.Merged) string {
